@@ -111,6 +111,7 @@ type SymJob struct {
 	Need  []string
 	Setup func(st *gosym.State)
 	Tweak func(cfg *gosym.Config)
+	pre   func()
 }
 
 // ReplaySpec says where a harness lives so that a model can be re-run natively.
@@ -180,6 +181,9 @@ func (c *Ctx) RunSym(job SymJob) *gosym.Report {
 		seen[key] = true
 		if len(seen) > 3 {
 			continue // same harness, more keys: already reported enough to act on
+		}
+		if job.pre != nil {
+			job.pre()
 		}
 		c.handleViolation(job, v, key)
 	}
